@@ -114,6 +114,21 @@ func (e *Env) ident(name string) (TV, error) {
 	if tv, ok := e.args[name]; ok {
 		return tv, nil
 	}
+	if len(g.ifaceAlias) > 0 && e.args == nil && g.fn != nil {
+		// verifying an implementation against its interface's contract: the contract's first
+		// parameter is the interface value holding this receiver, the others are the parameters
+		for i, n := range g.ifaceAlias {
+			if n != name || i >= len(g.fn.Params) {
+				continue
+			}
+			p := g.fn.Params[i]
+			if i == 0 {
+				g.needIface()
+				return TV{app("mk_iface", g.typeTag(p.Type()), g.box(g.val(p), p.Type())), types.NewInterfaceType(nil, nil)}, nil
+			}
+			return TV{g.val(p), p.Type()}, nil
+		}
+	}
 	if e.results != nil {
 		if name == "result" && len(e.results) >= 1 {
 			return e.results[0], nil
@@ -202,6 +217,9 @@ func (e *Env) ident(name string) (TV, error) {
 	}
 	// path flag of the function under verification
 	if _, ok := g.keySort["L:pathflag."+name]; ok {
+		if ty, ok := g.pathVarType[name]; ok {
+			return TV{g.get(e.st, "L:pathflag."+name), ty}, nil
+		}
 		return TV{g.get(e.st, "L:pathflag."+name), tyBool}, nil
 	}
 	// ghost variable
